@@ -119,7 +119,7 @@ func drawChunks(t *rapid.T, label string, size int) []int {
 	return c
 }
 
-var plainKinds = []string{"write-msg", "writer", "writer", "writer-fail", "ownbuf", "cipher-writer", "cipher-reader", "readfrom", "control-writer", "mask-helpers", "reject", "shared-upgrade", "ext-writer", "shared-send", "send-close", "read-data", "read-msg", "reader", "ping", "ping", "pong", "compiled"}
+var plainKinds = []string{"write-msg", "writer", "writer", "writer-fail", "ownbuf", "cipher-writer", "cipher-reader", "readfrom", "control-writer", "mask-helpers", "reject", "bad-handshake", "shared-upgrade", "ext-writer", "shared-send", "send-close", "read-data", "read-msg", "reader", "ping", "ping", "pong", "compiled"}
 var flateKinds = []string{"flate-send", "flate-recv", "flate-recv", "flate-bytes", "flate-writer", "flate-reader"}
 
 // drawTemplate draws the shape of a session. light = layer 2 (many sessions per case).
@@ -631,6 +631,18 @@ func newEnv() *sharedEnv {
 	return e
 }
 
+// flateParams: the parameters the server side negotiates with. Selector 0 is
+// wsflate.DefaultParameters; the others carry window bits, whose textual values
+// the library serves from a package-level table.
+func (s *session) flateParams() wsflate.Parameters {
+	k := s.tpl.HS.Sel
+	if k == 0 {
+		return wsflate.DefaultParameters
+	}
+	return wsflate.Parameters{ServerNoContextTakeover: true, ClientNoContextTakeover: true,
+		ServerMaxWindowBits: wsflate.WindowBits(8 + (s.id+k)%8), ClientMaxWindowBits: wsflate.WindowBits(8 + (s.id+2*k)%8)}
+}
+
 func (s *session) sharedMode() bool {
 	return s.tpl.HS.Mode == "shared-upgrader" || s.tpl.HS.Mode == "shared-http"
 }
@@ -679,6 +691,9 @@ func (s *session) request() []byte {
 	ext := s.extHeader(false)
 	if s.tpl.flate() {
 		d := "permessage-deflate; client_max_window_bits"
+		if s.tpl.HS.Sel != 0 && !s.tpl.Client {
+			d += "=15" // the server side asks for explicit window bits (see flateParams)
+		}
 		if ext != "" {
 			ext = d + ", " + ext
 		} else {
@@ -729,7 +744,7 @@ func (s *session) serverHandshake() {
 		if h.Mode == "upgrader" {
 			u.Extension = func(httphead.Option) bool { return true }
 		} else {
-			s.ext = wsflate.Extension{Parameters: wsflate.DefaultParameters}
+			s.ext = wsflate.Extension{Parameters: s.flateParams()}
 			u.Negotiate = s.ext.Negotiate
 		}
 		hs, err = u.Upgrade(tx.RW{Reader: s.src(req, h.Chunks), Writer: s.dst(rec)})
@@ -752,7 +767,7 @@ func (s *session) serverHandshake() {
 			u := ws.HTTPUpgrader{Protocol: func(p string) bool { return p == want }, Extension: func(httphead.Option) bool { return true }}
 			_, _, hs, err = u.Upgrade(r, hj)
 		default:
-			s.ext = wsflate.Extension{Parameters: wsflate.DefaultParameters}
+			s.ext = wsflate.Extension{Parameters: s.flateParams()}
 			u := ws.HTTPUpgrader{Protocol: func(p string) bool { return p == want }, Negotiate: s.ext.Negotiate}
 			_, _, hs, err = u.Upgrade(r, hj)
 		}
@@ -1533,6 +1548,158 @@ func (s *session) stepReject(o op) {
 	s.expect(before == after, "the rejection error value shared by all sessions changed during Upgrade: %s -> %s", before, after)
 }
 
+// --- handshakes the library itself rejects -------------------------------------------
+//
+// The errors it returns are package-level values shared by all connections
+// (ws.ErrHandshakeBad*, ErrMalformedRequest, ErrHandshakeUpgradeRequired,
+// ErrNotHijacker, …) and the error responses are written from precomputed texts.
+
+type namedErr struct {
+	name string
+	err  error
+}
+
+var libraryErrors = []namedErr{
+	{"ErrHandshakeBadProtocol", ws.ErrHandshakeBadProtocol}, {"ErrHandshakeBadMethod", ws.ErrHandshakeBadMethod},
+	{"ErrHandshakeBadHost", ws.ErrHandshakeBadHost}, {"ErrHandshakeBadUpgrade", ws.ErrHandshakeBadUpgrade},
+	{"ErrHandshakeBadConnection", ws.ErrHandshakeBadConnection}, {"ErrHandshakeBadSecAccept", ws.ErrHandshakeBadSecAccept},
+	{"ErrHandshakeBadSecKey", ws.ErrHandshakeBadSecKey}, {"ErrHandshakeBadSecVersion", ws.ErrHandshakeBadSecVersion},
+	{"ErrMalformedRequest", ws.ErrMalformedRequest}, {"ErrHandshakeUpgradeRequired", ws.ErrHandshakeUpgradeRequired},
+	{"ErrNotHijacker", ws.ErrNotHijacker}, {"ErrMalformedResponse", ws.ErrMalformedResponse},
+	{"ErrHandshakeBadSubProtocol", ws.ErrHandshakeBadSubProtocol}, {"ErrHandshakeBadExtensions", ws.ErrHandshakeBadExtensions},
+}
+
+func renderLibraryErrors() string {
+	var parts []string
+	for _, e := range libraryErrors {
+		if r, ok := e.err.(*ws.ConnectionRejectedError); ok {
+			parts = append(parts, fmt.Sprintf("%s{status=%d %q}", e.name, r.StatusCode(), r.Error()))
+		} else {
+			parts = append(parts, fmt.Sprintf("%s{%q}", e.name, e.err.Error()))
+		}
+	}
+	return strings.Join(parts, " ")
+}
+
+func nameOfErr(err error) string {
+	for _, e := range libraryErrors {
+		if err == e.err {
+			return "ws." + e.name
+		}
+	}
+	return renderErr(err)
+}
+
+// plainWriter is an http.ResponseWriter that cannot be hijacked.
+type plainWriter struct {
+	hdr    http.Header
+	status int
+	body   bytes.Buffer
+}
+
+func (w *plainWriter) Header() http.Header         { return w.hdr }
+func (w *plainWriter) WriteHeader(c int)           { w.status = c }
+func (w *plainWriter) Write(p []byte) (int, error) { return w.body.Write(p) }
+
+func (s *session) stepBadHandshake(o op) {
+	v := o.spec.Which
+	good := string(s.request())
+	if v <= 10 {
+		req, what := good, ""
+		switch v {
+		case 0:
+			req, what = strings.Replace(good, "GET ", "POST ", 1), "method POST"
+		case 1:
+			req, what = strings.Replace(good, " HTTP/1.1\r\n", " HTTP/1.0\r\n", 1), "HTTP/1.0"
+		case 2:
+			req, what = strings.Replace(good, "Upgrade: websocket\r\n", "Upgrade: h2c\r\n", 1), "Upgrade: h2c"
+		case 3:
+			req, what = strings.Replace(good, "Connection: Upgrade\r\n", "", 1), "no Connection header"
+		case 4:
+			i := strings.Index(good, "Sec-WebSocket-Key: ") + len("Sec-WebSocket-Key: ")
+			req, what = good[:i]+"c2hvcnQ="+good[i+24:], "short key"
+		case 5, 9:
+			req, what = strings.Replace(good, "Sec-WebSocket-Version: 13\r\n", "Sec-WebSocket-Version: 12\r\n", 1), "version 12"
+		case 6:
+			req, what = strings.Replace(good, "Sec-WebSocket-Version: 13\r\n", "", 1), "no version header"
+		case 7:
+			i, j := strings.Index(good, "Host: "), strings.Index(good, "Upgrade: ")
+			req, what = good[:i]+good[j:], "no Host header"
+		case 8:
+			req, what = strings.Replace(good, "Upgrade: websocket\r\n", "Upgrade: websocket\r\nthis line has no colon\r\n", 1), "header line without colon"
+		case 10:
+			what = "ResponseWriter that is no Hijacker"
+		}
+		rec := tx.NewRec()
+		var err error
+		var hs ws.Handshake
+		via := "Upgrader"
+		switch v {
+		case 9, 10:
+			via = "HTTPUpgrader"
+			r, perr := http.ReadRequest(bufio.NewReader(bytes.NewReader([]byte(req))))
+			if perr != nil {
+				s.expect(false, "harness: net/http does not parse the request: %v", perr)
+				return
+			}
+			if v == 10 {
+				pw := &plainWriter{hdr: http.Header{}}
+				_, _, hs, err = ws.UpgradeHTTP(r, pw)
+				rec.Write([]byte(fmt.Sprintf("status=%d body=%q", pw.status, pw.body.String())))
+			} else {
+				_, _, hs, err = ws.UpgradeHTTP(r, tx.NewHijackable(s.src(nil, nil), s.dst(rec), 0))
+			}
+		default:
+			u := ws.Upgrader{ReadBufferSize: s.tpl.HS.BufSize, WriteBufferSize: s.tpl.HS.BufSize}
+			hs, err = u.Upgrade(tx.RW{Reader: s.src([]byte(req), o.spec.Chunks), Writer: s.dst(rec)})
+		}
+		resp := string(rec.Bytes())
+		s.logf("%s, %s: err=%s hs={%s} response=%s", via, what, nameOfErr(err), renderHS(hs), digest([]byte(resp)))
+		s.expect(err != nil && !strings.HasPrefix(resp, "HTTP/1.1 101"), "a request with %s was upgraded (err=%v)", what, err)
+		return
+	}
+	// client side: the server answers with a bad response
+	what := ""
+	mutate := func(resp string) string { return resp }
+	switch v {
+	case 11:
+		what = "wrong Sec-WebSocket-Accept"
+		mutate = func(r string) string {
+			i := strings.Index(r, "Sec-WebSocket-Accept: ") + len("Sec-WebSocket-Accept: ")
+			c := byte('A')
+			if r[i] == 'A' {
+				c = 'B'
+			}
+			return r[:i] + string(c) + r[i+1:]
+		}
+	case 12:
+		what = "no Upgrade header"
+		mutate = func(r string) string { return strings.Replace(r, "Upgrade: websocket\r\n", "", 1) }
+	case 13:
+		what = "Connection: close"
+		mutate = func(r string) string { return strings.Replace(r, "Connection: Upgrade\r\n", "Connection: close\r\n", 1) }
+	case 14:
+		what = "HTTP/1.0 101"
+		mutate = func(r string) string { return strings.Replace(r, "HTTP/1.1 101", "HTTP/1.0 101", 1) }
+	default:
+		what = "a subprotocol that was not offered"
+		mutate = func(r string) string {
+			return strings.Replace(r, "\r\n\r\n", "\r\nSec-WebSocket-Protocol: never-offered\r\n\r\n", 1)
+		}
+	}
+	peer := &lazyPeer{s: s, chunks: o.spec.Chunks, render: func(key string) []byte {
+		return []byte(mutate("HTTP/1.1 101 Switching Protocols\r\nUpgrade: websocket\r\nConnection: Upgrade\r\nSec-WebSocket-Accept: " + acceptFor(key) + "\r\n\r\n"))
+	}}
+	u, _ := url.Parse(dialURLs[s.id%len(dialURLs)])
+	d := ws.Dialer{ReadBufferSize: s.tpl.HS.BufSize, WriteBufferSize: s.tpl.HS.BufSize, Protocols: []string{word(s.id, 1000+o.idx*16, 5)}}
+	br, hs, err := d.Upgrade(peer, u)
+	if br != nil {
+		ws.PutReader(br)
+	}
+	s.logf("Dialer, server answers with %s: err=%s hs={%s} br-nil=%t", what, nameOfErr(err), renderHS(hs), br == nil)
+	s.expect(err != nil, "a response with %s was accepted", what)
+}
+
 // stepSharedUpgrade: a server upgrade through one of the run's shared upgraders
 // (Protocol made by SelectEqual / SelectFromSlice over 1, 16, 17 or 40 names).
 func (s *session) stepSharedUpgrade(o op) {
@@ -1926,13 +2093,18 @@ func (s *session) stepWssDial(o op) {
 	rec := tx.NewRec()
 	conn := &tx.MemConn{R: s.src(nil, nil), W: s.dst(rec)}
 	wssConns.Store(host+":443", conn)
-	c, br, _, err := sharedDialer.Dial(context.Background(), "wss://"+host+"/"+word(s.id, 1001+o.idx*16, 4))
+	d, which := sharedDialer, "shared-config"
+	if o.spec.Which%2 == 1 {
+		// TLSConfig nil: the library's package-level default config is the shared object
+		d, which = ws.Dialer{NetDial: sharedDialer.NetDial}, "default-config"
+	}
+	c, br, _, err := d.Dial(context.Background(), "wss://"+host+"/"+word(s.id, 1001+o.idx*16, 4))
 	wssConns.Delete(host + ":443")
 	if br != nil {
 		ws.PutReader(br)
 	}
 	sni := clientHelloSNI(rec.Bytes())
-	s.logf("host=%s failed=%t conn-nil=%t closed=%t client-hello-sni=%q", host, err != nil, c == nil, conn.Closed, sni)
+	s.logf("%s host=%s failed=%t conn-nil=%t closed=%t client-hello-sni=%q", which, host, err != nil, c == nil, conn.Closed, sni)
 	s.expect(sni == host, "wss dial to %s: the TLS ClientHello names %q", host, sni)
 }
 
@@ -2196,6 +2368,8 @@ func (s *session) step() {
 			s.stepReject(o)
 		case "shared-upgrade":
 			s.stepSharedUpgrade(o)
+		case "bad-handshake":
+			s.stepBadHandshake(o)
 		case "shared-send":
 			s.stepSharedSend(o)
 		case "send-close":
